@@ -243,6 +243,38 @@ int main() {
          if (!err.empty()) return err + " after" + out;
          return "ok" + out;
       }
+      if (t[1] == "gdef") {
+         // pa gdef members=<n> -- <m>:<keyspec> ...  : n member handlers are created first, then the
+         // definitions are made in the given sequence; result: ok, or the first refusal
+         size_t k = 2, n = 0;
+         for (; k < t.size() && t[k] != "--"; ++k) {
+            if (t[k].compare(0, 8, "members=") == 0) n = std::stoul(t[k].substr(8));
+            else if (t[k].compare(0, 2, "x-") == 0) continue;
+            else return "bad-op";
+         }
+         if (k == t.size() || n == 0 || n > 9) return "bad-op";
+         std::vector<std::pair<size_t, std::string>> defs;
+         for (++k; k < t.size(); ++k) {
+            auto c = t[k].find(':');
+            if (c == std::string::npos) return "bad-op";
+            size_t m = std::stoul(t[k].substr(0, c));
+            if (m >= n) return "bad-op";
+            defs.emplace_back(m, t[k].substr(c + 1));
+         }
+         Groups::instance().removeAllArgHandler();
+         std::deque<int> dests(defs.size());
+         std::string res = "ok";
+         {
+            std::vector<std::shared_ptr<Handler>> hs;
+            for (size_t m = 0; m < n; ++m) hs.push_back(Groups::instance().getArgHandler(std::string("g") + char('0' + m), 0));
+            for (size_t d = 0; d < defs.size(); ++d) {
+               std::string err = vh::guarded([&] { hs[defs[d].first]->addArgument(defs[d].second, cpa::destination(dests[d], "d"), "desc"); });
+               if (!err.empty()) { res = err + " at " + std::to_string(d); break; }
+            }
+         }
+         Groups::instance().removeAllArgHandler();
+         return res;
+      }
       if (t[1] == "eval" || t[1] == "group") {
          if (!haveCfg) return "bad-op";
          // pa eval [file=<hexline>|<hexline>] [env=<hex>] -- words...
